@@ -9,15 +9,15 @@ from .. import vos, poolenv
 from ..rt import Outcome, ev, Sched, notrace, conc
 from ..xh import Harness
 from ..main import PropSpec
-from .c07 import make_pool, expected, multiset_diff, _inner_fn, _FUNCS, NSCHED
+from .c07 import make_pool, expected, multiset_diff, inputs_of, _inner_fn, _FUNCS, NSCHED
 
 
-def h_report(W, N, E, D, retry, retres, poison, failing, s0, s1, s2, s3, s4, s5, s6, s7, s8, s9, s10, s11):
+def h_report(W, N, E, D, retry, retres, poison, failing, dup, s0, s1, s2, s3, s4, s5, s6, s7, s8, s9, s10, s11):
     with notrace():
-        return _h_report(W, N, E, D, retry, retres, poison, failing, [s0, s1, s2, s3, s4, s5, s6, s7, s8, s9, s10, s11])
+        return _h_report(W, N, E, D, retry, retres, poison, failing, dup, [s0, s1, s2, s3, s4, s5, s6, s7, s8, s9, s10, s11])
 
 
-def _h_report(W, N, E, D, retry, retres, poison, failing, ss):
+def _h_report(W, N, E, D, retry, retres, poison, failing, dup, ss):
     vos.reset()
     W = max(1, conc(W, 4))
     N = conc(N, 7)
@@ -26,6 +26,7 @@ def _h_report(W, N, E, D, retry, retres, poison, failing, ss):
     retry, retres = conc(retry, 2), conc(retres, 2)
     poison = conc(poison, N + 1)             # 0 none, i+1: input i kills whoever processes it
     failing = conc(failing, W + 1)           # 0 none, i+1: worker i fails on the first input it processes
+    dup = conc(dup, 3)
     env = poolenv.Env(Sched(ss), W, D, poison=(poison - 1 if poison else None), failing=((failing - 1,) if failing else ()))
     ev("report", W, N, E, D, retry, retres, poison, failing)
     pool = make_pool(env, retry=bool(retry))
@@ -35,7 +36,7 @@ def _h_report(W, N, E, D, retry, retres, poison, failing, ss):
         if what == "finished":
             delivered.append(a[0])
     try:
-        ret = pool.run(iter(range(N)), worker_extra_pending_inputs=E, return_results=bool(retres), worker_callback=cb)
+        ret = pool.run(iter(inputs_of(N, dup)), worker_extra_pending_inputs=E, return_results=bool(retres), worker_callback=cb)
         kind, val = "ret", ret
     except PoolError as e:
         kind, val = "poolerror", e
@@ -47,7 +48,7 @@ def _h_report(W, N, E, D, retry, retres, poison, failing, ss):
         ev(*e)
     ev(kind)
     interesting = any(e[0] == "dead" for e in env.events)
-    exp = expected(N)
+    exp = expected(N, dup=dup)
     if kind == "hang":
         return Outcome("c08.report.%s" % ("spins" if "spin" in val[1] else "blocks-forever"), True, str(val))
     if kind == "exc":
@@ -97,15 +98,16 @@ def _h_report(W, N, E, D, retry, retres, poison, failing, ss):
 
 
 _params = OrderedDict([("W", (1, 3)), ("N", (0, 6)), ("E", (0, 2)), ("D", (0, 3)), ("retry", (0, 1)), ("retres", (0, 1)),
-                       ("poison", (0, 6)), ("failing", (0, 3))] + [("s%d" % i, (0, 5)) for i in range(NSCHED)])
+                       ("poison", (0, 6)), ("failing", (0, 3)), ("dup", (0, 2))] + [("s%d" % i, (0, 5)) for i in range(NSCHED)])
 
 H_REPORT = Harness(
     "report", "vf.props.c08:h_report", _params,
     tiers={
-        "quick": {"ranges": {"W": (1, 2), "N": (0, 3), "E": (0, 1), "D": (0, 1), "poison": (0, 1), "failing": (0, 1)},
+        "quick": {"ranges": {"W": (1, 2), "N": (0, 3), "E": (0, 1), "D": (0, 1), "poison": (0, 1), "failing": (0, 1), "dup": (0, 1)},
                   "fixed": {"s8": 0, "s9": 0, "s10": 0, "s11": 0},
-                  "partition": ["W", "N", "E", "D", "retry", "retres"], "timeout": 400,
-                  "twin_fixed": {"W": 2, "N": 3, "E": 1, "D": 1, "retry": 0, "retres": 1}},
+                  "partition": ["W", "N", "E", "D", "retry", "retres", "dup"], "timeout": 400,
+                  "filter": (lambda f: f["dup"] == 0 or (f["N"] in (2, 3) and f["D"] == 1 and f["retres"] == 1)),
+                  "twin_fixed": {"W": 2, "N": 3, "E": 1, "D": 1, "retry": 0, "retres": 1, "dup": 0}},
         "thorough": {"ranges": {"N": (0, 5)}, "partition": ["W", "N", "E", "D", "retry", "retres", "poison"], "filter": (lambda f: f["poison"] <= f["N"]), "timeout": 1500,
                      "twin_fixed": {"W": 2, "N": 3, "E": 1, "D": 1, "retry": 0, "retres": 1, "poison": 0}},
     },
